@@ -216,7 +216,7 @@ def keystore_cases(ctx, rng):
     return kid, d1[0], d2[0], want[(0, 0)]
 
 
-def fixture_selfcheck(ctx):
+def _fixture_selfcheck_body(ctx):
     """B: decrypt the committed pair with the real classes, re-seal with the encoder, decrypt again."""
     from dissect.hypervisor.util.envelope import Envelope, KeyStore
 
@@ -317,3 +317,13 @@ def replay(ctx, body):
     ctx.quiet = True
     run(ctx)
     return not ctx.violations
+
+
+def fixture_selfcheck(ctx):
+    try:
+        _fixture_selfcheck_body(ctx)
+    except core.MachineryError:
+        raise
+    except Exception as e:  # noqa: BLE001  (the code under test raised on the committed sample)
+        import traceback
+        ctx.violation({"fail": "fixture-raised", "sub": "fixture", "exc": type(e).__name__}, {"error": repr(e)[:300], "tb": traceback.format_exc()[-1200:]})
